@@ -3,7 +3,7 @@
  "name": "fix_problem_verdict",
  "props": ["C01", "C02"],
  "level": "U",
- "tier": "wip",
+ "tier": "quick",
  "harness": "h_fp_verdict",
  "enforce_rec": ["fix_problem"],
  "replace": ["find_problem"],
@@ -27,7 +27,7 @@
  "name": "fix_problem_yes",
  "props": ["C01"],
  "level": "U",
- "tier": "wip",
+ "tier": "quick",
  "harness": "h_fp_yes",
  "enforce_rec": ["fix_problem"],
  "replace": ["find_problem"],
